@@ -120,8 +120,16 @@ def main(argv):
         gs = sorted(set(g for x in vs for g in susrender.gates(x)))
         for mode in ("sync", "blocking", "streaming"):
             e = ("sus", mode, susrender.sx(av), "(%s)" % " ".join(map(str, gs)))
-            other = ("sus", rng.choice(["blocking", "streaming"]), susrender.sx(susrender.real_view(rng.choice(shapes))), "()")
-            mixed.append([e, other, e])
+            ovs = rng.choice(shapes)
+            ogs = sorted(set(g for x in ovs for g in susrender.gates(x)))
+            # in between: a streaming render drained to the end, a blocking render, a streaming render abandoned with pending tasks
+            for omode, osched in (("streaming", ogs), ("blocking", ogs), ("streaming", [])):
+                other = ("sus", omode, susrender.sx(susrender.real_view(ovs)), "(%s)" % " ".join(map(str, osched)))
+                mixed.append([e, other, e])
+        # ... and between two sync renders of an ordinary view with elements
+        st0, v0 = viewgen.random_view(rng, 3, {"show": 0, "list": 0, "nossr": 0.5, "nohydrate": 0.5})   # (a hidden Show consumes keys without emitting them)
+        e0 = ("sync", viewgen.sx_state(st0), viewgen.sx_view(v0))
+        mixed.append([e0, ("sus", "streaming", susrender.sx(av), "(%s)" % " ".join(map(str, gs))), e0, ("sus", "blocking", susrender.sx(av), "(%s)" % " ".join(map(str, gs))), e0])
     text = "\n".join("(seq %s)" % " ".join("(%s)" % " ".join(e) for e in s) for s in mixed) + "\n"
     rc, so, se = vlib.run_driver(binp, text)
     mblocks = so.rstrip("\n").split("\n==\n")
